@@ -22,6 +22,12 @@
 #include <string.h>
 #include <time.h>
 #include <unistd.h>
+#if defined(__has_include)
+# if __has_include(<valgrind/memcheck.h>)
+#  include <valgrind/memcheck.h>
+#  define HAVE_MEMCHECK 1
+# endif
+#endif
 
 #include "adflib.h"
 #include "adf_bitm.h"
@@ -44,6 +50,8 @@ void __real_free(void *);
 char *__real_strdup(const char *);
 
 static int in_lib = 0;          /* >0 while inside an ADFlib API call        */
+static int lineno = 0;
+static long undef_writes = 0;
 static int heapfill = -1;       /* prefill byte for library mallocs, -1=none */
 static long malloc_fail_at = 0; /* k-th library malloc from now fails (0=off)*/
 static long malloc_count = 0;
@@ -150,6 +158,14 @@ static int io_hook(int is_write, uint32_t n, unsigned size, const uint8_t *wbuf,
         if (fault_wr && (wr_since == fault_wr || (fault_sticky && wr_since > fault_wr)))
             return -1;
         total_dev_writes++;
+#ifdef HAVE_MEMCHECK
+        /* under valgrind: every byte handed to the device must be defined (C17: no uninitialised heap or stack content
+           reaches the image - including remnants of earlier callees' frames, which a prefill of the stack cannot show) */
+        if (RUNNING_ON_VALGRIND) {
+            unsigned long bad = VALGRIND_CHECK_MEM_IS_DEFINED(wbuf, size);
+            if (bad) { printf("%d undef block=%u offset=%lu size=%u\n", lineno, n, bad - (unsigned long)wbuf, size); undef_writes++; }
+        }
+#endif
         if (wlog) {
             fprintf(wlog, "W %u %u %08x", n, size, fnv32(wbuf, size));
             if (wlog_full) {
@@ -229,7 +245,6 @@ static void qVerb(const char *const f, ...) { (void)f; }
 /* ------------------------------------------------------------------ */
 /* helpers                                                            */
 
-static int lineno = 0;
 static struct AdfDevice *dev = NULL;
 static struct AdfVolume *vol = NULL;
 #define NH 8
@@ -336,6 +351,8 @@ int main(int argc, char **argv) {
     install_mem_native();
 
     char line[8192];
+    unsigned alarm_secs = getenv("ADFH_ALARM") ? (unsigned)atoi(getenv("ADFH_ALARM")) : 60;
+    if (!alarm_secs) alarm_secs = 60;
     while (fgets(line, sizeof line, sc)) {
         lineno++;
         char *nl = strchr(line, '\n'); if (nl) *nl = 0;
@@ -345,7 +362,7 @@ int main(int argc, char **argv) {
         if (!na) continue;
         const char *c = a[0];
         fflush(stdout);
-        alarm(60);
+        alarm(alarm_secs);
 
         if (!strcmp(c, "verbose")) { verbose = atoi(a[1]); out("ok"); }
         else if (!strcmp(c, "spectree") || !strcmp(c, "specintl") || !strcmp(c, "nospace")) { out("ok"); }
@@ -543,6 +560,26 @@ int main(int argc, char **argv) {
             if (s == -1 || s <= 0) out("err");
             else { printf("%d ok sect=%d type=%d size=%u acc=%d name=", lineno, s, e.secType, e.secType == ST_FILE ? e.byteSize : 0, e.access);
                    char nm[32]; unsigned l = e.nameLen > 30 ? 30 : e.nameLen; memcpy(nm, e.name, l); nm[l] = 0; printhex(nm); putchar('\n'); }
+        }
+        else if (!strcmp(c, "fileblocks")) { /* fileblocks <dirpath> <name> : the block lists of a file (adfGetFileBlocks, read-only) */
+            if (goto_dir(a[1])) { out("err nopath"); continue; }
+            struct bEntryBlock e;
+            bail_armed = 1;
+            if (sigsetjmp(bail, 1)) { in_lib = 0; bail_armed = 0; out("hang"); fflush(stdout); _exit(3); }
+            ENTER(); SECTNUM s = adfGetEntryByName(vol, vol->curDirPtr, unhex(a[2]), &e); LEAVE();
+            if (s <= 0 || e.secType != ST_FILE) { bail_armed = 0; out("err"); }
+            else {
+                struct AdfFileBlocks fb; memset(&fb, 0, sizeof fb);
+                ENTER(); RETCODE rc = adfGetFileBlocks(vol, (struct bFileHeaderBlock *)&e, &fb); LEAVE(); bail_armed = 0;
+                if (rc != RC_OK) out("err rc=%d", rc);
+                else {
+                    uint32_t h = 2166136261u;
+                    for (int i = 0; i < fb.nbData; i++) h = (h ^ (uint32_t)fb.data[i]) * 16777619u;
+                    for (int i = 0; i < fb.nbExtens; i++) h = (h ^ (uint32_t)fb.extens[i]) * 16777619u;
+                    out("ok data=%d ext=%d fnv=%08x", fb.nbData, fb.nbExtens, h);
+                    free(fb.data); free(fb.extens);
+                }
+            }
         }
         else if (!strcmp(c, "cd")) { /* cd <dirpath> */
             bail_armed = 1;
